@@ -224,6 +224,13 @@ func vh_C04_StreamSortByIndex() {
 	vfAssert("receiver-still-shows-its-elements", vfSliceEq([]int(*s), oldA))
 	vfAssert("lemma/separated", !vfSameStorage(r, s))
 	vfUnchanged("bystander-unchanged", snapZ)
+	// sorting the receiver AGAIN, the other way round, leaves the earlier result holding exactly what it held
+	if r != s {
+		before := append([]int{}, (*r)...)
+		if !vfPanics(func() { s.SortByIndex(func(i, j int) bool { return (*s)[i] > (*s)[j] }) }) {
+			vfAssert("earlier-result-unchanged-by-later-operation-on-receiver", vfSliceEq([]int(*r), before))
+		}
+	}
 	vfReach("end")
 }
 
@@ -375,6 +382,21 @@ func vh_C04_StreamForInterface() {
 	if op == "SortByIndex" {
 		vfAssert(op+"/receiver-still-shows-its-elements", vfSliceEq(c04Unbox(s), a))
 		vfAssert("lemma/"+op+"/separated", !vfSameStorage(r, s))
+		// a second step through the public API on the RECEIVER - the documented in-place mutator, or sorting it again the
+		// other way round - leaves the earlier result holding exactly what it held
+		if r != s {
+			before := c04Unbox(r)
+			second := vfChoose("then-on-receiver", 2)
+			if !vfPanics(func() {
+				if second == 0 {
+					s.Remove(0)
+				} else {
+					s.SortByIndex(func(i, j int) bool { return (*s)[i].(int) > (*s)[j].(int) })
+				}
+			}) {
+				vfAssert(op+"/earlier-result-unchanged-by-later-operation-on-receiver", vfSliceEq(c04Unbox(r), before))
+			}
+		}
 	} else {
 		vfUnchanged(op+"/existing-collections-unchanged", snap)
 		fresh := vfAnd(!vfSameStorage(r, s), !vfSameStorage(r, o))
